@@ -44,7 +44,7 @@ impl Buf for Wire {
     }
 }
 
-// vp: props=C15,C06; tag=C15.string.length; kind=complete; tier=quick
+// vp: props=C15,C06,C11; tag=C15.string.length; kind=complete; tier=quick
 // `decode(size, buf)` for every prefix size used with strings (size - 1 in 1..=8), every length prefix and every
 // wire length: the prefix is read by prefix_int::decode, a string that announces more octets than remain is
 // UnexpectedEnd with nothing but the prefix consumed, otherwise exactly `len` octets are taken (one
